@@ -318,6 +318,8 @@ def main():
     add(family='amo_arith', nreq=2, lat=0, nports=1, sink_delay=2, stalls=False, variant='rtl')
     add(family='w', nreq=5, lat=2, nports=1, sink_delay=3, stalls=True, variant='rtl', len0=True, stall_budget=1)
     add(family='w', nreq=4, lat=1, nports=1, sink_delay=2, stalls=True, variant='rtl', len0=True, stall_budget=1)
+    add(family='amo_add', nreq=5, lat=1, nports=1, sink_delay=2, stalls=False, variant='rtl', len0=True)      # non-idempotent requests under back-pressure
+    add(family='amo_add', nreq=4, lat=0, nports=1, sink_delay=3, stalls=False, len0=True)
     add(family='rw', nreq=1, lat=1, nports=2, sink_delay=0, stalls=False, variant='rtl', dws=[32, 64])
     add(family='rw', nreq=1, lat=0, nports=2, sink_delay=1, stalls=False, dws=[64, 16])
     add(family='rw', nreq=2, lat=1, nports=1, sink_delay=0, stalls=False, mem_nbytes=24)
@@ -327,6 +329,8 @@ def main():
     add(family='w', nreq=5, lat=2, nports=1, sink_delay=3, stalls=True, variant='rtl', len0=True, stall_budget=2)
     add(family='w', nreq=4, lat=1, nports=1, sink_delay=2, stalls=True, variant='rtl', len0=True, stall_budget=3)
     add(family='w', nreq=6, lat=3, nports=1, sink_delay=4, stalls=True, variant='rtl', len0=True, stall_budget=1)
+    add(family='amo_add', nreq=6, lat=2, nports=1, sink_delay=4, stalls=True, variant='rtl', len0=True, stall_budget=1)
+    add(family='amo_add', nreq=5, lat=0, nports=1, sink_delay=2, stalls=True, variant='rtl', len0=True, stall_budget=2)
     add(family='w', nreq=4, lat=2, nports=1, sink_delay=3, stalls=True, len0=True, stall_budget=2)
     add(family='rw', nreq=2, lat=1, nports=2, sink_delay=0, stalls=False, variant='rtl', dws=[32, 64])
     add(family='amo_arith', nreq=1, lat=0, nports=2, sink_delay=1, stalls=False, variant='rtl', dws=[64, 32])
